@@ -382,7 +382,17 @@ def exec_masks(m, rng):
     return [0, full[-1]] + rest[:budget - 2]
 
 
-def run_exec(ctx, execs):
+def run_exec(ctx, execs, batch=16):
+    """Executables are large: compile and run a batch of programs at a time, the scratch directory is reused."""
+    import shutil
+    d = None
+    for i in range(0, len(execs), batch):
+        d = run_exec_batch(ctx, execs[i:i + batch])
+    if d:
+        shutil.rmtree(d, ignore_errors=True)
+
+
+def run_exec_batch(ctx, execs):
     programs = []
     info = {}
     for fid, (defs, ms) in execs:
@@ -462,12 +472,22 @@ def run_exec(ctx, execs):
             ctx.count("executed:" + coarse)
             if ctx.counters.get("exec_runs", 0) % 97 == 1:
                 ctx.sample({"executed": m.describe(), "backend": be, "values": n, "guard_masks": list(masks), "first_lines": out[:4]}, limit=10)
+    return d
 
 
 def run(ctx):
     opts = getattr(ctx, "opts", {})
     backends = opts.get("backends", "cannon,boots").split(",")
-    build.ensure_toolchain("rel", need_boots=opts.get("noexec") != "1" and "boots" in backends)
+    boots_failed = None
+    try:
+        build.ensure_toolchain("rel", need_boots=opts.get("noexec") != "1" and "boots" in backends)
+    except build.BuildError as e:
+        # a front end that miscompiles matches may not be able to bootstrap the Dora-written optimizing compiler: the static half
+        # and the baseline code generator can still be checked (without the boots counters the run cannot end as "held")
+        build.ensure_toolchain("rel", need_boots=False)
+        boots_failed = str(e)[-400:]
+        backends = [b for b in backends if b != "boots"]
+        opts = ctx.opts = dict(opts, backends=",".join(backends), noexec="1" if not backends else opts.get("noexec", "0"))
     dora = build.dora("rel")
     d = core.scratch("c11")
     jobs = []
@@ -519,7 +539,9 @@ def run(ctx):
         "the guard of an arm is evaluated at most once per scrutinee value, after the pattern matched",
     ]
     ctx.extra["small_space_sizes"] = {s.name: s.total for s in spaces}
-    ctx.extra["exhaustive"] = {"sub_space": "small:* (see rule)", "matrices": sum(s.total for s in spaces) if opts.get("small", "1") == "1" else 0}
+    ctx.extra["exhaustive"] = False      # the run as a whole samples; only the sub-space below is enumerated completely
+    ctx.extra["exhaustive_subspace"] = {"name": "small:* (see rule)", "complete": opts.get("small", "1") == "1",
+                                        "matrices": sum(s.total for s in spaces) if opts.get("small", "1") == "1" else 0}
     conf = {k: n for k, n in ctx.counters.items() if k.startswith(("exhaustive:", "arm:"))}
     ctx.extra["verdict_confusion_matrix"] = conf
     ctx.extra["matrices_by_shape_class"] = {k[6:]: n for k, n in sorted(ctx.counters.items()) if k.startswith("shape:")}
@@ -527,6 +549,9 @@ def run(ctx):
         del ctx.counters[k]
     ctx.required_counters = ["matrices", "files_checked", "exhaustive:oracle=yes,checker=yes", "exhaustive:oracle=no,checker=no",
                              "arm:oracle=useless,checker=useless", "arm:oracle=useful,checker=useful", "witnesses"]
+    if boots_failed:
+        ctx.inconc("the optimizing compiler could not be bootstrapped, only the baseline code generator was exercised: " + boots_failed)
+        ctx.required_counters.append("matches_executed:boots")
     if opts.get("noexec") != "1":
         ctx.required_counters += ["values_executed"] + ["matches_executed:" + b for b in backends]
     ctx.min_distinct = 100
